@@ -22,6 +22,11 @@ pub enum Trigger {
     PrimaryDies,
     /// as PrimaryDies, but the survivors notice the broken connections in the opposite order
     PrimaryDiesNoticedInReverse,
+    /// as PrimaryDies, but every survivor notices the broken connection at a point of its own that
+    /// the exploration chooses (one survivor may finish a whole election before the other notices)
+    PrimaryDiesNoticedLater,
+    /// as PrimaryDiesNoticedLater; in the default schedule the given survivor notices last of all
+    PrimaryDiesNoticedLastBy(usize),
     /// settled cluster, `debug force-election` on node i
     ForceElection(usize),
     /// settled cluster, force-election on two nodes at once
@@ -108,6 +113,15 @@ pub fn build(c: &Config) -> Result<NetWorld, String> {
             w.kill_node_noticed(p, matches!(c.trigger, Trigger::PrimaryDiesNoticedInReverse))?;
             Ok(w)
         }
+        Trigger::PrimaryDiesNoticedLater | Trigger::PrimaryDiesNoticedLastBy(_) => {
+            let mut w = settled_with_pids(c.nodes, &c.pids)?;
+            let p = (0..c.nodes).find(|i| w.role(*i) == ClusterRole::Primary).ok_or("no primary after bootstrap")?;
+            if let Trigger::PrimaryDiesNoticedLastBy(n) = &c.trigger {
+                w.eof_last = vec![*n];
+            }
+            w.kill_node_lazily(p)?;
+            Ok(w)
+        }
         Trigger::ForceElection(i) => {
             let mut w = settled_with_pids(c.nodes, &c.pids)?;
             w.add_client(*i, &[&format!("auth {} {}", USER, PWD)], false);
@@ -192,6 +206,9 @@ pub fn configs(quick: bool) -> Vec<Config> {
     v.push(Config { nodes: 2, pids: vec![100, 200], trigger: Trigger::ForceElectionTwice(0, 1) });
     v.push(Config { nodes: 3, pids: vec![100, 200, 300], trigger: Trigger::PrimaryDies });
     v.push(Config { nodes: 3, pids: vec![100, 200, 300], trigger: Trigger::PrimaryDiesNoticedInReverse });
+    v.push(Config { nodes: 3, pids: vec![100, 200, 300], trigger: Trigger::PrimaryDiesNoticedLater });
+    v.push(Config { nodes: 3, pids: vec![100, 200, 300], trigger: Trigger::PrimaryDiesNoticedLastBy(1) });
+    v.push(Config { nodes: 3, pids: vec![100, 200, 300], trigger: Trigger::PrimaryDiesNoticedLastBy(2) });
     v.push(Config { nodes: 3, pids: vec![100, 200, 300], trigger: Trigger::LateJoin });
     v.push(Config { nodes: 3, pids: vec![100, 200, 300], trigger: Trigger::ForceElection(1) });
     if !quick {
